@@ -134,6 +134,6 @@ R('store', 'h_store', None, defines=_D, cost=30, bounded='telegram parts of up t
 R('decode', 'h_decode', None, defines=_D, cost=10, **_U)
 R('create_chain', 'h_create_chain', None, defines=_D, cost=20, bounded='up to 3 chain ids of up to 4 further bytes', **_U)
 R('chain_prepare', 'h_chain_prepare', None, defines=_DS2, cost=30, timeout=900, bounded='chains of 2 parts, ids up to 3 further bytes, 2 data bytes per part', **_US2)
-R('chain_store', 'h_chain_store', None, defines=_DS2, cost=40, timeout=900, bounded='chains of 2 parts, ids up to 3 further bytes, 2 data / 3 slave bytes per part', **_US2)
+R('chain_store', 'h_chain_store', None, props=('C09', 'C08', 'C20'), defines=_DS2, cost=40, timeout=900, bounded='chains of 2 parts, ids up to 3 further bytes, 2 data / 3 slave bytes per part', **_US2)
 R('chain_prepare3', 'h_chain_prepare', None, defines=_DS3, cost=200, timeout=1800, tier='thorough', bounded='chains of up to 3 parts, ids up to 4 further bytes, 3 data bytes per part', **_US3)
-R('chain_store3', 'h_chain_store', None, defines=_DS3, cost=400, timeout=2400, tier='thorough', bounded='chains of up to 3 parts, ids up to 4 further bytes, 3 data / 4 slave bytes per part', **_US3)
+R('chain_store3', 'h_chain_store', None, props=('C09', 'C08', 'C20'), defines=_DS3, cost=400, timeout=2400, tier='thorough', bounded='chains of up to 3 parts, ids up to 4 further bytes, 3 data / 4 slave bytes per part', **_US3)
